@@ -149,5 +149,34 @@ pub fn observe<const L: usize>(book: &OrderBook<L>, trading: bool) -> String {
             s.push_str(&trade_s(t));
         }
     }
+    s.push_str(" hs=");
+    s.push_str(&hidden_s(book));
+    s
+}
+
+/// The part of the book's state that no getter shows but every snapshot carries: the next queue stamp, the
+/// trading flag and each order record's queue key. Read from the book's own `Serialize` output:
+/// `<queue_stamp>/<trading 0|1>/<side:price-key:stamp;...>` (`?` if the snapshot has another form).
+pub fn hidden_s<const L: usize>(book: &OrderBook<L>) -> String {
+    let v = match serde_json::to_value(book) {
+        Ok(v) => v,
+        Err(_) => return "?".to_string(),
+    };
+    let qs = match v.get("queue_stamp").and_then(|x| x.as_u64()) { Some(x) => x, None => return "?".to_string() };
+    let tr = match v.get("trading").and_then(|x| x.as_bool()) { Some(x) => x, None => return "?".to_string() };
+    let orders = match v.get("orders").and_then(|x| x.as_array()) { Some(x) => x, None => return "?".to_string() };
+    let mut s = format!("{}/{}/", qs, if tr { 1 } else { 0 });
+    if orders.is_empty() {
+        s.push('-');
+    }
+    for (i, e) in orders.iter().enumerate() {
+        let k = match e.get("key").and_then(|x| x.as_array()) { Some(k) if k.len() == 3 => k, _ => return "?".to_string() };
+        let sd = match k[0].as_str() { Some("Bid") => "b", Some("Ask") => "a", _ => return "?".to_string() };
+        let (pk, st) = match (k[1].as_u64(), k[2].as_u64()) { (Some(a), Some(b)) => (a, b), _ => return "?".to_string() };
+        if i > 0 {
+            s.push(';');
+        }
+        write!(s, "{}:{}:{}", sd, pk, st).unwrap();
+    }
     s
 }
